@@ -413,6 +413,13 @@ def _check_state(res, info, vector, model, when, force_compose=False):
                       'encoded body is %d bytes, bounds are [%d, %d] (%d items)' % (
                           size, param.min_byte_num, param.max_byte_num, len(model)))
         return False
+    if name == 'TlsCipherSuiteVector' and (force_compose or len(model) <= 64):
+        # this vector composes only inside its message: judge the prefix the enclosing client hello emits
+        problem = _enclosing_hello_prefix(vector, model)
+        if problem:
+            res.violation((PROPERTY, 'prefix-differs-from-body', name, 'in-client-hello'),
+                          'composed prefix equals the number of body bytes', problem)
+            return False
     if info.get('composable') and info['has_prefix'] and (force_compose or len(model) <= 200):
         try:
             composed = bytes(vector.compose())
@@ -434,6 +441,33 @@ def _check_state(res, info, vector, model, when, force_compose=False):
                           'compose() emitted %d body bytes, the size model says %d' % (len(composed) - width, size))
             return False
     return True
+
+
+def _enclosing_hello_prefix(vector, model):
+    """Compose a client hello around the cipher suite vector; returns a problem description or None."""
+    import datetime
+    from cryptoparser.tls.subprotocol import (
+        TlsHandshakeClientHello, TlsHandshakeHelloRandom, TlsHandshakeHelloRandomBytes)
+    try:
+        hello = TlsHandshakeClientHello(
+            cipher_suites=list(vector), session_id=[], fallback_scsv=False, empty_renegotiation_info_scsv=False,
+            random=TlsHandshakeHelloRandom(datetime.datetime(2024, 1, 15), TlsHandshakeHelloRandomBytes(bytearray(28))))
+        composed = bytes(hello.compose())
+    except (core.RunTimeout, KeyboardInterrupt, SystemExit):
+        raise
+    except BaseException as exc:  # pylint: disable=broad-except
+        return 'a client hello around %d suites could not be composed: %s' % (len(model), type(exc).__name__)
+    offset = 4 + 2 + 32 + 1
+    prefix = int.from_bytes(composed[offset:offset + 2], 'big')
+    if prefix != 2 * len(model):
+        return 'client hello announces %d bytes of cipher suites for %d suites' % (prefix, len(model))
+    # body of the vector, then one compression method vector (1 + 1 bytes) end the message
+    if len(composed) != offset + 2 + prefix + 2:
+        return 'client hello is %d bytes, expected %d for %d suites' % (len(composed), offset + 2 + prefix + 2, len(model))
+    expected = b''.join(item.value.code.to_bytes(2, 'big') for item in model)
+    if composed[offset + 2:offset + 2 + prefix] != expected:
+        return 'cipher suite codes in the composed client hello differ from the vector\'s items'
+    return None
 
 
 def execute(doc):  # pylint: disable=too-many-branches,too-many-statements
